@@ -136,12 +136,14 @@ CLAIMED["C11"] = ("Atomicity by construction: (a) no path in the whole-program c
     "whole-program call-graph reachability with function-pointer flow (per struct field / parameter); dominance side conditions justifying the cut edge",
     "3 C11")
 
-CLAIMED["C04"] = ("One clause: canonical-form must-pass-through. Raw producers are inferred (functions that allocate a bignum themselves, "
+CLAIMED["C04"] = ("Two clauses. Numbers are immutable: no function Scheme code reaches with its own values modifies (a part of) an operand in place - "
+    "every store to a bignum sign / flonum value is traced to the origin of the object (fresh, operand, or handed back unchanged by a callee) along "
+    "feasible paths and through destination-taking helpers to the entry points. Canonical-form must-pass-through. Raw producers are inferred (functions that allocate a bignum themselves, "
     "closed under 'may return such a value unsanitized' over the representation-level helpers); may-taint dataflow through each generic "
     "arithmetic entry point shows that no return value is a raw bignum / raw ratio that skipped sexp_bignum_normalize / sexp_ratio_normalize. "
     "A necessary condition of 'an integer that fits a fixnum is a fixnum, numerically equal exact results are eqv?'; digit-level "
     "correctness of the arithmetic, parsing and printing are not decided.",
-    "taint / must-pass-through dataflow over the CFG with inferred producer set",
+    "taint / must-pass-through dataflow over the CFG with inferred producer set; origin (ownership) analysis of in-place stores with passthrough and mutator summaries over the call graph",
     "3 C04")
 
 # properties planned in DESIGN.md but whose checks are not built yet are listed
